@@ -206,7 +206,7 @@ def run(repo: Repo, rep, tier: str):
     if len(reach) < 150 or len(cells) < 12:
         raise AnalysisError(f"inventory too small ({len(reach)} functions, {len(cells)} cells): call graph lost")
 
-    before = entry_calls_before_simulator(repo, {"set_config", "install_routes", "reset", "_reset", "set_routes", "set_data_candles", "initiate", "init_storage",
+    before = entry_calls_before_simulator(repo, {"set_config", "reset_config", "install_routes", "reset", "_reset", "set_routes", "set_data_candles", "initiate", "init_storage",
                                                  "clear", "initiate_drivers"},
                                           {"initiate", "reset", "set_routes"})
     must = lambda nm: all(nm in s for s in before)
@@ -226,12 +226,28 @@ def run(repo: Repo, rep, tier: str):
             tm = any(isinstance(n, ast.Assign) and "trading_mode" in norm(n.targets[0]) for n in ast.walk(fn))
             if not (ok and tm):
                 return f"config is not re-initialised from the arguments on entry (set_config: {must('set_config')}, install_routes: {must('install_routes')}, trading_mode: {tm})"
-            # writers other than the entry-time initialisers / known sticky flag
-            allowed = {"jesse/config.py:set_config", "jesse/config.py:reset_config", "jesse/store/__init__.py:install_routes", "jesse/research/backtest.py:_isolated_backtest",
-                       "jesse/modes/backtest_mode.py:_step_simulator", "jesse/modes/backtest_mode.py:_skip_simulator", "jesse/modes/backtest_mode.py:run"}
+            # every other writer (e.g. the simulators switching config['app']['debug_mode'] on for generate_logs, set_config leaving the
+            # per-exchange entries of earlier sessions behind) is discharged only by a DEEP restore of the defaults on entry:
+            # reset_config() must run before set_config on every path, must copy backup_config deeply, and backup_config itself
+            # must be a deep copy (a shallow copy shares the nested 'app' / 'env' dicts, so nothing nested is ever restored)
+            rc = repo.func("jesse/config.py", "reset_config")
+            deep_restore = any(isinstance(c, ast.Call) and SL.last(dotted(c.func) or "") == "deepcopy" and "backup_config" in norm(c) for c in ast.walk(rc))
+            cmod = repo.module("jesse/config.py")
+            deep_backup = any(isinstance(n, ast.Assign) and norm(n.targets[0]) == "backup_config" and isinstance(n.value, ast.Call) and SL.last(dotted(n.value.func) or "") == "deepcopy"
+                              for n in cmod.tree.body)
+            entry_reset = must("reset_config")
+            allowed = {"jesse/config.py:set_config", "jesse/config.py:reset_config", "jesse/store/__init__.py:install_routes", "jesse/research/backtest.py:_isolated_backtest"}
             extra = [x for x in w if x not in allowed]
-            if extra:
-                return f"config is also written by {extra} (not re-initialised on entry)"
+            if not (deep_restore and deep_backup and entry_reset):
+                why = []
+                if not entry_reset:
+                    why.append("reset_config() is not called on entry")
+                if not deep_restore:
+                    why.append("reset_config() does not copy backup_config deeply")
+                if not deep_backup:
+                    why.append("backup_config is not a deep copy of the defaults")
+                return (f"nested configuration values written during a session are not restored on entry ({'; '.join(why)}): e.g. config['app']['debug_mode'] set by "
+                        f"{[x.split(':')[1] for x in extra] or 'the simulators'} for generate_logs, or the per-exchange entries set_config leaves behind, leak into later sessions")
             return None
         if key == "jesse/services/logger.py:LOGGERS":
             sd = repo.func("jesse/modes/utils.py", "save_daily_portfolio_balance")
@@ -311,6 +327,36 @@ def run(repo: Repo, rep, tier: str):
             rep.violation(rid, key, f"global state cell {key} ({kind}) is not discharged: {problem}", {"cell": key})
         rep.instance(rid, key, {"cell": key, "kind": kind, "discharge": "verified" if not problem else "FAILED"})
     rep.floor(rid, 12)
+
+    # ------------------------------------------------------------------ hash-order independence
+    rid3 = "C11-R3"
+    rep.rule(rid3, "repeatable across fresh processes: in code reachable from _isolated_backtest no set (whose iteration order over strings "
+                   "follows the per-process hash seed) is turned into an ordered sequence - tuple(s) / list(s) / next(iter(s)) / s.pop() - "
+                   "unless through sorted(): the order of symbols / exchanges / timeframes decides position order, summation order and "
+                   "which candle array defines the session length")
+    n_sets = 0
+    for rel, f in reach:
+        setvars = set()
+        for n in ast.walk(f):
+            if isinstance(n, ast.Assign) and len(n.targets) == 1 and isinstance(n.targets[0], ast.Name):
+                v = n.value
+                is_set = (isinstance(v, ast.Call) and isinstance(v.func, ast.Name) and v.func.id in ("set", "frozenset")) or isinstance(v, (ast.Set, ast.SetComp)) \
+                    or (isinstance(v, ast.Call) and isinstance(v.func, ast.Attribute) and v.func.attr in ("copy", "union", "intersection", "difference")
+                        and isinstance(v.func.value, ast.Name) and v.func.value.id in setvars)
+                if is_set:
+                    setvars.add(n.targets[0].id)
+        if not setvars:
+            continue
+        n_sets += len(setvars)
+        for n in ast.walk(f):
+            if isinstance(n, ast.Call) and isinstance(n.func, ast.Name) and n.func.id in ("tuple", "list") and n.args and isinstance(n.args[0], ast.Name) and n.args[0].id in setvars:
+                rep.violation(rid3, f"{rel}:{f.name}|{n.args[0].id}", f"{rel}:{f.name}: `{norm(n)}` orders the set `{n.args[0].id}` by the per-process string hash (use an insertion-ordered "
+                                                                        f"container or sorted()): results of research.backtest differ between fresh processes")
+            if isinstance(n, ast.Call) and isinstance(n.func, ast.Attribute) and n.func.attr == "pop" and isinstance(n.func.value, ast.Name) and n.func.value.id in setvars and not n.args:
+                rep.violation(rid3, f"{rel}:{f.name}|{n.func.value.id}|pop", f"{rel}:{f.name}: `{norm(n)}` takes an arbitrary (hash-ordered) element of a set")
+        rep.instance(rid3, f"{rel}:{f.name}", {"function": f"{rel}:{f.name}", "set_variables": sorted(setvars)})
+    rep.instance(rid3, "scan", {"functions": len(reach), "set_variables": n_sets})
+    rep.floor(rid3, 1)
 
     # ------------------------------------------------------------------ arguments unmodified
     rid2 = "C11-R2"
